@@ -467,6 +467,98 @@ theorem snapshot_no_errors (compute : Key → V) : Statement_no_new_errors .snap
     (run_inv (cstep .snapshot compute) (fun s => ∀ th ∈ s.threads, NoErr th)
       (cstep_snapshot_noErr compute) sched _ h0)
 
+/-! #### actions on private state commute with everything -/
+
+/-- what a thread does to itself when its next action touches no shared state -/
+def localUpd (compute : Key → V) (th : CThread V) : CThread V :=
+  match th.pc with
+  | .idle =>
+    (match th.todo with
+     | [] => th
+     | k :: ks => { th with pc := .start k, todo := ks })
+  | .compare k ver idx snap it =>
+    if it.1 = k then { th with pc := .idle, rets := (k, .ok it.2) :: th.rets }
+    else { th with pc := .iter k ver idx snap }
+  | .compute k => { th with pc := .append k (compute k) }
+  | _ => th
+
+def isLocalPc (th : CThread V) : Bool :=
+  match th.pc with
+  | .idle => true
+  | .compare .. => true
+  | .compute _ => true
+  | _ => false
+
+theorem set_self {α : Type} (l : List α) (i : Nat) (a : α) (h : l[i]? = some a) : l.set i a = l := by
+  induction l generalizing i with
+  | nil => rfl
+  | cons x xs ih =>
+    cases i with
+    | zero => simp at h; simp [h]
+    | succ j => simp at h; simp [ih j h]
+
+theorem cstep_local (mode : Mode) (compute : Key → V) (s : CState V) (t : Nat) (th : CThread V)
+    (ht : s.threads[t]? = some th) (hl : isLocalPc th = true) :
+    cstep mode compute t s = { s with threads := s.threads.set t (localUpd compute th) } := by
+  unfold cstep localUpd
+  simp only [ht]
+  cases hp : th.pc with
+  | idle =>
+    simp only
+    cases hd : th.todo with
+    | nil => simp only; rw [set_self _ _ _ ht]
+    | cons k ks => rfl
+  | compare k ver idx snap it =>
+    simp only
+    by_cases hk : it.1 = k
+    · simp only [if_pos hk]
+    · simp only [if_neg hk]
+  | compute k => rfl
+  | start k => simp [isLocalPc, hp] at hl
+  | iter k ver idx snap => simp [isLocalPc, hp] at hl
+  | append k v => simp [isLocalPc, hp] at hl
+
+theorem cstep_other_slot (mode : Mode) (compute : Key → V) (s : CState V) (t u : Nat) (htu : t ≠ u) :
+    (cstep mode compute u s).threads[t]? = s.threads[t]? := by
+  unfold cstep
+  cases hu : s.threads[u]? with
+  | none => rfl
+  | some th =>
+    simp only
+    cases hp : th.pc <;> simp only <;> (try split) <;> (try split) <;> (try split) <;>
+      first | rfl | (simp only [List.getElem?_set_ne (Ne.symm htu)])
+
+theorem cstep_overwrite (mode : Mode) (compute : Key → V) (s : CState V) (t u : Nat) (htu : t ≠ u) (x : CThread V) :
+    cstep mode compute u { s with threads := s.threads.set t x }
+      = { (cstep mode compute u s) with threads := (cstep mode compute u s).threads.set t x } := by
+  unfold cstep
+  have hget : (s.threads.set t x)[u]? = s.threads[u]? := List.getElem?_set_ne htu
+  simp only [hget]
+  cases hu : s.threads[u]? with
+  | none => rfl
+  | some th =>
+    simp only
+    cases hp : th.pc <;> simp only <;> (try split) <;> (try split) <;> (try split) <;>
+      first | rfl | (simp only [List.set_comm _ _ htu])
+
+/-- **pure_calls_independent.** An action that touches no shared state (starting the next call,
+comparing a fetched key, building the result) commutes with every action of every other thread:
+`step u ∘ step t = step t ∘ step u`.  So the position of such actions in a schedule is irrelevant —
+which is why the traced scheduler may merge them into the neighbouring quantum, and why calls that
+never reach the shared cache (every call on an array without caching) are independent of all
+interleavings. -/
+theorem pure_calls_independent (mode : Mode) (compute : Key → V) (s : CState V) (t u : Nat) (htu : t ≠ u)
+    (th : CThread V) (ht : s.threads[t]? = some th) (hl : isLocalPc th = true) :
+    cstep mode compute u (cstep mode compute t s) = cstep mode compute t (cstep mode compute u s) := by
+  rw [cstep_local mode compute s t th ht hl, cstep_overwrite mode compute s t u htu]
+  have ht' : (cstep mode compute u s).threads[t]? = some th := by rw [cstep_other_slot mode compute s t u htu]; exact ht
+  rw [cstep_local mode compute _ t th ht' hl]
+
+/-- non-vacuity: in the witness run, after three steps thread 0 is about to compare a fetched key
+(a private action) while thread 1 has all its shared actions still to do -/
+example : ((runSched (cstep .live (fun k : Key => k)) [0, 0, 0] (cinit cexDq cexProgs)).threads[0]?).map isLocalPc = some true := by
+  decide
+
 /-! #### the harness's coarse schedules are fine schedules -/
 
 theorem runSched_append {σ : Type} (step : Nat → σ → σ) (a b : List Nat) (s : σ) :
